@@ -72,6 +72,18 @@ impl SessionEngine {
         req.sink.emit(event).await;
     }
     *req.seq += 1;'''),
+ dict(id='c01-forget-set-seq', prop='C01', rule='C01.7', file=S, what='forget session.set_seq(seq) after an unlocked tool run',
+      old='''                    .run(&runtime_session_id, &mut seq, invocation)
+                    .await;
+                session.set_seq(seq);
+                emit_events(tool_events, &sender, &events, &event_log).await;
+            }
+        }''',
+      new='''                    .run(&runtime_session_id, &mut seq, invocation)
+                    .await;
+                emit_events(tool_events, &sender, &events, &event_log).await;
+            }
+        }'''),
  # ------------------------------------------------------------------ C02
  dict(id='c02-open-write-mode', prop='C02', rule='C02.1', file='crates/rip-log/src/lib.rs', what='open the truth file with write(true) instead of append(true)',
       old='OpenOptions::new().create(true).append(true).open(&path)?', new='OpenOptions::new().create(true).write(true).open(&path)?'),
@@ -107,6 +119,27 @@ impl SessionEngine {
         let mut event = event;
         event.timestamp_ms -= event.timestamp_ms % 1000;
         self.stream_cache.append_best_effort(&event);'''),
+ dict(id='c03-sidecar-skips-cursor-frames', prop='C03', rule='C03.5', file=SC, what='do not mirror provider-cursor frames into the sidecar ("noise")',
+      old='''        let continuity_id = event.stream_id();
+        let path = self.path_for(continuity_id);
+        if let Some(parent) = path.parent() {
+            let _ = fs::create_dir_all(parent);
+        }
+
+        let Ok(file) = OpenOptions::new().create(true).append(true).open(&path) else {''',
+      new='''        if matches!(
+            &event.kind,
+            rip_kernel::EventKind::ContinuityProviderCursorUpdated { .. }
+        ) {
+            return;
+        }
+        let continuity_id = event.stream_id();
+        let path = self.path_for(continuity_id);
+        if let Some(parent) = path.parent() {
+            let _ = fs::create_dir_all(parent);
+        }
+
+        let Ok(file) = OpenOptions::new().create(true).append(true).open(&path) else {'''),
  # ------------------------------------------------------------------ C04
  dict(id='c04-remove-saturation-break', prop='C04', rule='C04.1', file=C, what='delete the saturation break of the compile-input tail loop',
       old='''            if tail_bytes >= MAX_TAIL_BYTES {
@@ -123,6 +156,13 @@ impl SessionEngine {
  dict(id='c04-question-mark-on-cache', prop='C04', rule='C04.3', file=C, what='propagate a cache error from replay_events instead of falling back',
       old='''        if let Ok(Some(events)) = self.stream_cache.try_replay(continuity_id) {''',
       new='''        if let Some(events) = self.stream_cache.try_replay(continuity_id)? {'''),
+ dict(id='c04-skip-seek-index-validation', prop='C04', rule='C04.4', file=SC, what='validate the seek index only when it is tiny',
+      old='''        validate_seq_index_against_sidecar(&entries, sidecar_path, continuity_id)?;
+        Ok(entries)''',
+      new='''        if entries.len() < 2 {
+            validate_seq_index_against_sidecar(&entries, sidecar_path, continuity_id)?;
+        }
+        Ok(entries)'''),
  # ------------------------------------------------------------------ C05
  dict(id='c05-sidecar-before-truth', prop='C05', rule='C05.1', file=C, what='write the sidecar line before the truth line (run_spawned)',
       old='''            .map_err(|err| format!("append continuity run spawned: {err}"))?;
